@@ -46,7 +46,9 @@ CLAIMED = {
             'Code level: every well-formed pattern and thousands of malformed strings are offered to the real compiler as '
             '`time at p`; accepted ones are run and the minute set at the clock interface recorded; pairs/triples joined by `or` '
             '(exhaustive over a reduced alphabet) and order-of-use histories with macros and loops likewise; TLC decides every row '
-            '(spec/TraceTimePattern.tla).',
+            '(spec/TraceTimePattern.tla). The wait itself: the Machine\'s pattern object is handed to a real Clock.wait_until over a wall '
+            'clock that moves on with every reading (patterns around the turn of the hour/day, waits starting inside a matching minute); '
+            'TLC decides each wait by WaitOk.',
             'Trusted: TLC, recording clock (calls TimePattern.match for all 1440 times). Alphabet 0-9 * : only.',
             'DESIGN.md section 6, C11'),
     'C15': ('model_checking', 'TLC trace validation of zone and tile messages against Lang.tla (profile matrix)',
@@ -86,7 +88,9 @@ CLAIMED = {
             'each is replayed with concrete texts into one real Parser and every request\'s outcome, listing and messages are compared '
             'by TLC with a fresh Parser\'s (TraceCompileHist.tla). Run part: generated jobs are executed again after completion, after '
             'being stopped at instruction k, and followed by a different job in the same world; each execution is validated by TLC '
-            'against Lang.tla starting from Lang\'s initial state, and the compiled program is compared before/after.',
+            'against Lang.tla starting from Lang\'s initial state, and the compiled program is compared before/after. Histories also run '
+            'through one ScriptJob.load_string object, after a failed run of the same job, and after a stop request that arrived just as '
+            'the previous run finished (through Agent._execute_and_call).',
             'Stops are injected by wrapping Machine._fn_table. Thread-level effects of stop on the real clock are C09/C10.',
             'DESIGN.md section 6, C17'),
     'C13': ('model_checking', 'TLC-generated discovery/expiry histories (LightDir.tla) replayed into the real LightSet; every getter compared by TLC after every step',
@@ -116,18 +120,23 @@ CLAIMED = {
             're-runs after stop; schedules come from bounded-preemption DFS with switch points at every source line of clock.py '
             'and from seeded random walks. Every execution - start, each tick and whether it found the script waiting, call/return '
             'instants of each wait - is validated by TLC against TraceClock.tla (NeverEarly, AtOnceWhenBehind, FirstTickWaiting, '
-            'TimeAtRestarts). Zero delays and raw-unit milliseconds at the Machine level are part of the Lang traces (C01/C07).',
+            'TimeAtRestarts), including clocks whose ticks are more than a second apart. Machine level: scripts in the three unit modes '
+            'whose time value serves several waits across unit switches; every request made of the clock is decided by TraceUnits.DelayOk.',
             'Virtual time advances only when all threads are blocked or sleeping; a weak-fairness bound pre-empts a spinning thread. '
             'After a time-of-day wait any origin between the awaited instant and the noticing tick is accepted.',
             'DESIGN.md section 6, C10'),
-    'C09': ('model_checking', 'TLC trace validation (TraceStop.tla) of the real JobControl/ScriptJob/Machine/Clock stack on real threads under a deterministic scheduler; stop injected at every scheduling point',
+    'C09': ('model_checking', 'TLC model check of the stop protocol (StopLatch.tla, PlusCal, with must-fail variants) + TLC trace validation (TraceStop.tla) of the real WebApp/JobControl/ScriptJob/Machine/Clock stack on real threads under a deterministic scheduler; stop injected at every scheduling point',
             'Script shapes straight-line, infinite repeat, timed (1 s / 1000 s) and time-of-day run as queued jobs on the real stack '
             '(virtual time, SimLan devices) with a second job queued behind and a third queued after the stop. A requester issues '
             'stop_job / stop_current / stop-all systematically at every scheduling point (source lines of job_control.py, script_job.py, '
             'machine.py, clock.py and every lock/event/sleep operation) after the job thread entered execute(), and at random points of '
             'random-walk schedules. TLC validates every execution against TraceStop.tla: at most one more device command after the '
             'request returned, the run ends within stated bounds (never lost), queued runs behind it start and complete, stop-all '
-            'leaves nothing to start, runs no stop was aimed at are unaffected.',
+            'leaves nothing to start, runs no stop was aimed at are unaffected, no device command follows a delay that a stop cut short. '
+            'Requests go through WebApp.stop_script / stop_current / stop_all; besides the undisturbed injection, points are re-run with the '
+            'request racing the other threads, with exactly one preemption at each step of the call, and densely over the window in which '
+            'the first run finishes. Model level: StopLatch.tla checks AtMostOneMore, OthersComplete, StopsEnd, NextStarts over all '
+            'interleavings of two runs of one job object and up to three requests; four variants re-introducing old defects must fail.',
             '"Started" = the job thread has entered the script job\'s execute(); the run the controller holds as current is read by the '
             'harness at call/return of the request. Promptness bound: 3000 scheduler steps and 10 ticks after the request returned.',
             'DESIGN.md section 6, C09'),
@@ -176,7 +185,7 @@ CLAIMED = {
             'Data is abstracted, so an infeasible path is checked too (sound for safety). Recursion cut at 3 nested calls. The '
             'nested profile is also run and validated against Lang.tla under C03, which binds the image to behaviour.',
             'DESIGN.md section 6, C05'),
-    'C06': ('exploration', 'generated inputs (token soup, mutants, injected rule violations, noise, edge corpus) through the real compiler and VM; TLC decides each record against the two-outcome contract (TraceCompile.tla)',
+    'C06': ('exploration', 'generated inputs (token, expression and statement soup, deep nesting, mutants, injected rule violations, noise, edge corpus) through the real compiler and VM; TLC decides each record against the two-outcome contract (TraceCompile.tla)',
             'Every input goes through ScriptJob.load_string (watchdog for hangs); accepted texts are executed by the real loader and VM '
             'over SimLan with an instruction budget. TLC checks per record: finishes, no exception, accept-with-program or '
             'reject-with-line-numbered-message-and-no-program, injected rule violation => rejected, accepted => no internal VM fault, '
